@@ -178,7 +178,7 @@ func c11Check(x ap.Item) (ds []keyed, plantedDeep int, jsonChecked bool) {
 				}
 			}
 		}
-		if d := vocab.ExactDiff(snap, after); len(d) > 0 {
+		if d := vocab.ContentDiff(snap, after); len(d) > 0 {
 			ds = append(ds, keyed{"clean " + gt + " other-property-changed", "Clean() changed something besides bto/bcc along the walk: " + strings.Join(d, "; ")})
 		}
 	}
